@@ -401,9 +401,15 @@ func c23RunGuards(e *c23Env) {
 		var evVar types.Object
 		tn, _ := e.planPk.Types.Scope().Lookup(e.nm.eventType).(*types.TypeName)
 		ast.Inspect(applyFd.Body, func(n ast.Node) bool {
-			if as, ok := n.(*ast.AssignStmt); ok && len(as.Lhs) == 1 && len(as.Rhs) == 1 && e.eventConstName(ainfo, as.Rhs[0]) != "" {
-				if o := c23Obj(ainfo, as.Lhs[0]); o != nil && tn != nil && types.Identical(o.Type(), tn.Type()) {
-					evVar = o
+			if as, ok := n.(*ast.AssignStmt); ok && len(as.Lhs) == 1 && len(as.Rhs) == 1 && len(e.eventConstsAssigned(ainfo, as.Rhs[0])) > 0 {
+				if o := c23Obj(ainfo, as.Lhs[0]); o != nil && tn != nil {
+					t := o.Type()
+					if sl, ok := t.Underlying().(*types.Slice); ok {
+						t = sl.Elem()
+					}
+					if types.Identical(t, tn.Type()) {
+						evVar = o
+					}
 				}
 			}
 			return true
